@@ -21,7 +21,7 @@ use inputlayer::{Config, StorageEngine};
 use std::collections::{BTreeMap, BTreeSet};
 use vharness::*;
 
-const E2E_EVERY: usize = 12;
+const E2E_EVERY: usize = 20;
 
 // ------------------------------------------------------------------ Coq printing
 fn cs(s: &str) -> String {
@@ -897,7 +897,9 @@ fn main() {
                 if nontrivial(a) {
                     key = Some(out.clone());
                 }
-                if format!("{:?}", a) == format!("{:?}", b) {
+                // compared as serialised (NaN payload/sign canonicalised), like the Coq oracle
+                let _ = b;
+                if r1c == r2c {
                     "roundtrip-same"
                 } else {
                     "roundtrip-DIFFERENT"
